@@ -77,6 +77,8 @@ func siteSeq(t []rtCall) string {
 
 func sitePath(site string) string {
 	switch {
+	case site == "cW" || strings.HasPrefix(site, "Inner."):
+		return "nested-depth-2"
 	case site == "cNX" || strings.HasPrefix(site, "Nest."):
 		return "nested"
 	case site == "cE1":
@@ -365,48 +367,41 @@ func oracleC10(m *gensim.MethodMeta, fr *rtFuncReport, twin *rtFuncReport, st *S
 	if len(vs) == 0 {
 		check(m.Post, "post")
 	}
-	// sentinel differential against the hook-less twin
-	if len(vs) == 0 && m.Pre != nil && m.Pre.DstPtr && twin != nil && len(twin.Results) > 0 && twin.Results[0].Panic == "" {
+	// sentinel differential against the hook-less twin: "allocate / take the
+	// caller's object, let the by-pointer preprocess hook write sentinels into
+	// every field, copy" must end in exactly the destination that the same copy
+	// produces on an object the driver filled with sentinels itself.
+	if len(vs) == 0 && m.Pre != nil && m.Pre.DstPtr && twin != nil && len(twin.Results) > 0 && twin.Results[0].Panic == "" && twin.Results[0].Err == "nil" && r.Err == "nil" {
 		st.Inc("n:sentinel_differentials")
-		R, T, S := flatJSON(r.Dst), flatJSON(twin.Results[0].Dst), flatJSON(twin.Results[0].Start)
-		paths := map[string]bool{}
-		for k := range R {
-			paths[k] = true
-		}
-		for k := range T {
-			paths[k] = true
-		}
-		var ps []string
-		for k := range paths {
-			ps = append(ps, k)
-		}
-		sort.Strings(ps)
-		for _, p := range ps {
-			rv, tv, sv := leafAt(R, p), leafAt(T, p), leafAt(S, p)
-			if tv == "object" || rv == "object" {
-				continue
+		if r.Dst != twin.Results[0].Dst {
+			R, T := flatJSON(r.Dst), flatJSON(twin.Results[0].Dst)
+			paths := map[string]bool{}
+			for k := range R {
+				paths[k] = true
 			}
-			if tv != sv {
-				// the copy assigns this leaf: the assignment must come after the hook
-				if rv != tv {
-					vs = append(vs, mk("C10/pre-before-assignments", map[string]string{"hook": "pre", "leaf": p, "hook_shape": hookShape(m.Pre)},
-						fmt.Sprintf("%s: field %s is %s but the same function without the preprocess hook stores %s there: the hook's write was not overwritten by the copy", m.Name, p, rv, tv)))
-					break
-				}
-			} else {
-				// nothing assigns this leaf: what the by-pointer preprocess hook wrote must survive
-				ok := false
-				for _, s := range sentinelOf(rv) {
-					if rv == s {
-						ok = true
-					}
-				}
-				if !ok {
-					vs = append(vs, mk("C10/pre-writes-survive", map[string]string{"hook": "pre", "leaf": p, "hook_shape": hookShape(m.Pre)},
-						fmt.Sprintf("%s: field %s is %s; no copy assigns it, so the value written by the by-pointer preprocess hook should have survived (the hook did not get the function's own destination, or the destination was re-created after it)", m.Name, p, rv)))
+			for k := range T {
+				paths[k] = true
+			}
+			var ps []string
+			for k := range paths {
+				ps = append(ps, k)
+			}
+			sort.Strings(ps)
+			leaf, rv, tv := "?", "", ""
+			for _, p := range ps {
+				if leafAt(R, p) != leafAt(T, p) {
+					leaf, rv, tv = p, leafAt(R, p), leafAt(T, p)
 					break
 				}
 			}
+			what := "the hook's write was not overwritten by the copy"
+			for _, sv := range sentinelOf(tv) {
+				if tv == sv {
+					what = "what the by-pointer preprocess hook wrote did not survive in a field no copy assigns (the hook did not get the function's own destination, or the destination was re-created after it)"
+				}
+			}
+			vs = append(vs, mk("C10/pre-then-copy", map[string]string{"hook": "pre", "leaf": leaf, "hook_shape": hookShape(m.Pre)},
+				fmt.Sprintf("%s: field %s ends as %s, but copying onto a sentinel-filled destination gives %s: %s", m.Name, leaf, rv, tv, what)))
 		}
 	}
 	return vs
@@ -414,7 +409,7 @@ func oracleC10(m *gensim.MethodMeta, fr *rtFuncReport, twin *rtFuncReport, st *S
 
 var reDiag = regexp.MustCompile(`(?m)^(?:\./)?conv/([\w.]+\.go):(\d+):(\d+): (.*)$`)
 
-var capableNames = []string{"cA", "cD", "cNX", "cE1", "cC", "cR", "cP", "GetY", "GetB", "Get", "SubN"}
+var capableNames = []string{"cA", "cD", "cNX", "cE1", "cC", "cR", "cP", "cW", "GetY", "GetB", "GetV", "Get", "SubN"}
 
 // attributeDiagnostics maps compiler diagnostics in the generated file onto
 // C07 / C10 narrowly; everything else is a note.
